@@ -30,6 +30,30 @@ def is_classmethod(fn):
     return any(isinstance(d, ast.Name) and d.id in ("classmethod", "staticmethod") for d in fn.decorator_list)
 
 
+def _is_self_dict(t: P) -> bool:
+    return t.key() in ("self.__dict__", "vars(self)")
+
+
+def dict_root(term: P):
+    """Name of the instance attribute a dictionary-like term is stored under, for the spellings
+    self._c / getattr(self, '_c', ..) / self.__dict__['_c'] / self.__dict__.setdefault('_c', {}) / vars(self)...."""
+    a = term.as_atom() if isinstance(term, P) else None
+    if not a:
+        return None
+    if a[0] == "obj":
+        return dict_root(a[3])
+    if a[0] == "call":
+        if call_name(a) == "getattr" and a[2] and a[2][0].key() == "self" and _str(a[2][1]):
+            return _str(a[2][1])
+        f = a[1].as_atom() if isinstance(a[1], P) else None
+        if f and f[0] == "attr" and f[2] in ("setdefault", "get") and a[2] and _str(a[2][0]) and _is_self_dict(f[1]):
+            return _str(a[2][0])
+    if a[0] == "sub" and isinstance(a[1], P) and _is_self_dict(a[1]) and len(a[2]) == 1 and _str(a[2][0]):
+        return _str(a[2][0])
+    r = alias_path(term)
+    return r if r and r.startswith("_") else None
+
+
 def instance_memos(mod, cls):
     """{attr: (method name, node, kind)} for memo attributes of a class."""
     memos = {}
@@ -47,12 +71,21 @@ def instance_memos(mod, cls):
                 if s:
                     tested.add(s)
             for a in find_atoms(e.value, lambda a: a[0] in ("in", "notin")):
-                root = alias_path(a[2])
-                if root and root.startswith("_"):
+                root = dict_root(a[2])
+                if root:
                     dict_tested.add(root)
-                c = a[2].as_atom()
-                if c and call_name(c) == "getattr" and c[2] and c[2][0].key() == "self" and _str(c[2][1]):
-                    dict_tested.add(_str(c[2][1]))
+        # consulted through .get(key) / [key] under try: the dictionary lives on the instance under any spelling
+        for e in ev.events:
+            if e.value is None:
+                continue
+            for a in find_atoms(e.value, lambda a: a[0] == "call" and isinstance(a[1], P) and (a[1].as_atom() or ("",))[0] == "attr"
+                                and a[1].as_atom()[2] == "get" and a[2]):
+                recv = a[1].as_atom()[1]
+                if _is_self_dict(recv):
+                    continue
+                root = dict_root(recv)
+                if root and not _str(a[2][0]):
+                    dict_tested.add(root)
         # last-value memo:  cached = getattr(self, "_x", None); if cached is not None and cached[0] == key: ... ; setattr(self, "_x", (key, ...))
         got = set()
         for e in ev.events:
@@ -83,13 +116,10 @@ def instance_memos(mod, cls):
                 t = e.target.as_atom()
                 if t and t[0] == "attr" and t[1].key() == "self" and t[2] in tested:
                     memos[t[2]] = (fn.name, e.node, "attr")
-                if t and t[0] == "sub":
-                    root = alias_path(t[1])
+                if t and t[0] == "sub" and not _is_self_dict(t[1]):
+                    root = dict_root(t[1])
                     if root in dict_tested:
                         memos[root] = (fn.name, e.node, "dict", tuple(t[2]), e.value)
-                    c = t[1].as_atom()
-                    if c and call_name(c) == "getattr" and c[2] and c[2][0].key() == "self" and _str(c[2][1]) in dict_tested:
-                        memos[_str(c[2][1])] = (fn.name, e.node, "dict", tuple(t[2]), e.value)
     return {k: v for k, v in memos.items() if not k.startswith("_have_warned") and k not in _dead_memos(mod, cls, memos)}
 
 
@@ -214,6 +244,34 @@ def check_mutators_invalidate(chk, rule, rel, cls, memos, mutators, fx=None):
                      f" (writes: {[w.how for w in ws][:3]})")
 
 
+def check_partial_removals(chk, rule, rel, cls, memos, attr_hook=None):
+    """A method that drops some memos (to recompute them) must drop every memo computed from them as well."""
+    mod = chk.repo.module(rel)
+    getters = {name: info[0] for name, info in memos.items()}
+    reads = {}
+    for fn in mod.methods(cls):
+        if is_classmethod(fn) or fn.name == "__init__":
+            continue
+        ev = Ev(fn, mod.ctx).run()
+        removed = set()
+        for _, names, _g in removals(mod, cls, ev, memos):
+            removed |= names
+        if not removed or removed >= set(memos):
+            continue
+        stale = []
+        for y, gy in sorted(getters.items()):
+            if y in removed:
+                continue
+            if gy not in reads:
+                reads[gy] = read_attrs(mod, cls, gy)
+            src = sorted(x for x in removed if x in reads[gy] and getters.get(x) != gy)
+            if src:
+                stale.append(f"{y} (computed by {gy}() from {', '.join(src)})")
+        chk.ob(rule, rel, f"{cls}.{fn.name}", f"dropping {sorted(removed)} also drops every memo computed from them", not stale, node=fn,
+               fingerprint=f"partial-removal:{fn.name}", expected="removal of the dependent memos as well (or a call of the class's invalidation helper)",
+               found=f"kept: {stale}")
+
+
 def check_memo_key(chk, rule, rel, cls, name, info):
     """A keyed memo (dictionary entry or last-value memo) must be keyed by everything its value is computed from."""
     if len(info) <= 4 or info[2] not in ("dict", "keyed"):
@@ -265,6 +323,8 @@ def class_memo_discipline(chk, rule, rel, cls, allow=None, attr_types=None, stat
                    node=node, fingerprint=f"memo:{name}", nontrivial=False)
             continue
         check_mutators_invalidate(chk, rule, rel, cls, {name: memos[name]}, mutators, fx)
+    if len(memos) > 1:
+        check_partial_removals(chk, rule, rel, cls, memos)
     return memos
 
 
